@@ -662,7 +662,9 @@ class NativeH:
         setattr(module, name, value)
 
     def note(self, *a):
-        pass
+        import os
+        if os.environ.get("PYVC_DEBUG"):
+            print("NOTE", *a)
 
     def bounded(self, why):
         pass
